@@ -11,6 +11,10 @@ CONSTANTS
   StopKA = TRUE
   CloseAtomic = TRUE
   KeepSink = FALSE
+  FailSet = {0}
+  MaxReq = 1000000
+  SharedBuf = FALSE
+  MmEncodeInAdd = FALSE
   AllowSkip = TRUE
 CONSTRAINT HighWater
 INVARIANT TypeOK
